@@ -5,8 +5,25 @@ import json, subprocess
 BASE = json.load(open('/root/.vp/BASELINE.json')) if False else None
 
 CHECKS = {
+ "C01": ("G: stateless exploration of plugin executions over (descriptor families x sort x layout x option mix); oracle: response shape, go/parser, Go type checker with signature pins", "4.C01"),
+ "C02": ("G+K: schema type tree vs documented table from the grammar term; exhaustive single-leaf probing through CopyTo/CopyFrom", "4.C02"),
  "C03": ("K: explicit-state exploration of SetS;EmptyO;To over the enumerated struct alphabet; schema-conformance oracle", "4.C03"),
  "C04": ("K: explicit-state exploration of SetS;EmptyO;To;FreshS;From; normal-form equality oracle", "4.C04"),
+ "C05": ("K: exploration of histories prefix;SetO;[Payload];From over object alphabet x payload placements x prior targets; zero-reset + differential oracle", "4.C05"),
+ "C06": ("K: fault enumeration - all corruption sets up to size k in both directions; predicted diagnostic set oracle", "4.C06"),
+ "C07": ("K: exploration of admissible objects x prior holders (From) and struct alphabet (To); exclusive-branch oracle", "4.C07"),
+ "C08": ("K: exploration of admissible plans through SetO;From;To(in place);From; path-wise echo oracle", "4.C08"),
+ "C09": ("K: breadth-first search over CopyTo call sequences on one object with canonical-state deduplication; follow-source + idempotence oracle", "4.C09"),
+ "C10": ("G+K: configurations enumerated as generated packages; run-time schema walked against the spec", "4.C10"),
+ "C11": ("G+K: one generated package per (option kind x occurrence x key form); absolute spec oracle + schema differential vs the un-optioned build", "4.C11"),
+ "C12": ("G: all type subsets x sort x request extensions; per-function text differential", "4.C12"),
+ "C13": ("G+K: same vs separate package layouts compiled side by side; behaviour digests over the K alphabets", "4.C13"),
+ "C14": ("G: map-iteration schedules on a runtime-overlay build of the plugin (all single deviations; pairs in thorough) + all entry-order permutations; response hash oracle", "4.C14"),
+ "C15": ("G+K: all permutations of message items / block members / messages; byte identity (sort) and behaviour digests (no sort)", "4.C15"),
+ "C16": ("G: channel assignments within k deviations of all-YAML / all-parameter + negative cases; response bytes differential", "4.C16"),
+ "C17": ("G+K: custom shapes x positions x suffix sources; hook call-log oracle over object / struct alphabets", "4.C17"),
+ "C18": ("G: unmappable kind x position chain x exclusion form x other roots; negative + differential + schema walk", "4.C18"),
+ "C19": ("K: every scalar-like leaf position x full boundary set, exact round trip (seeded random supplement reported as sampling)", "4.C19"),
  "C20": ("K: explicit-state exploration of SetS;EmptyO;To; null<=>absence table oracle derived from the grammar term", "4.C20"),
 }
 NA = {}
